@@ -221,9 +221,11 @@ def run_case(case):
   holder['test'] = test
   test.add_output_callbacks(cb)
   test.add_test_diagnosers(tdiag)
+  saved_default_timeout = L['pe'].DEFAULT_PHASE_TIMEOUT_S
   if kind == 'phase_sigint':
     FAULTS['td_slow'] = True
     conf.load(cancel_timeout_s=0.02)
+    L['pe'].DEFAULT_PHASE_TIMEOUT_S = 5.0      # (bounds what a late-served signal costs: DESIGN.md 7.3)
   if kind == 'td_hang+slow':
     conf.load(plug_teardown_timeout_s=0.5)
   if kind in ('td_hang', 'td_block', 'td_hang+ctor'):
@@ -239,6 +241,7 @@ def run_case(case):
       DONE[0].wait(5.0)
     if kind in ('td_hang', 'td_block', 'phase_sigint', 'td_hang+ctor', 'td_hang+slow'):
       conf.reset()
+    L['pe'].DEFAULT_PHASE_TIMEOUT_S = saved_default_timeout
   h.Test.HANDLED_SIGINT_ONCE = False
   return {'res': res, 'log': list(LOG)}
 
